@@ -394,6 +394,107 @@ def search_pos(t):
     return None
 
 
+_TAGGED = {}
+
+
+def tagged_option_field(ctx, body, p, bb, x):
+    """x is (a borrow of) an Option field F of the struct behind `self`, the path has tested self.TAG == V before the site, and the struct
+    invariant `TAG == V  =>  F is Some` holds: every value of the struct that a function of its module returns or hands on satisfies it, and no
+    function that receives the struct through a parameter writes F or TAG (or borrows F mutably for anything but a look inside)."""
+    for _ in range(3):
+        if is_call(x, "Option::as_mut", "Option::as_ref", "Option::as_deref", "Option::as_deref_mut") and call_args(x):
+            x = strip_refs(call_args(x)[0])
+    if not (isinstance(x, tuple) and len(x) > 3 and x[0] == "field" and deval(x[1]) == ("param", 1) and len(body.f["locals"]) > 1):
+        return False
+    adt = body.f["locals"][1]["ty"].replace("&mut ", "").replace("&", "").strip()
+    adt = re.sub(r"^'\w+ ", "", adt)
+    if adt not in ctx.fx.adts:
+        return False
+    F = x[3]
+    tags = []
+    for c in conds_before(p, bb):
+        t = c.term
+        if isinstance(t, tuple) and t[0] == "discr" and isinstance(deval(t[1]), tuple) and deval(t[1])[0] == "field" and deval(deval(t[1])[1]) == ("param", 1):
+            if c.fact[0] == "eq":
+                tags.append((deval(t[1])[3], c.fact[1]))
+            elif c.fact[0] == "ne":
+                # every other variant excluded: the one that is left
+                sf = [fl for v_ in ctx.fx.adts[adt]["variants"] for fl in v_["fields"] if fl.get("name") == deval(t[1])[3]]
+                ta = ctx.fx.adts.get((sf[0]["ty"] if sf else "").strip()) if sf else None
+                if ta:
+                    left = [v_.get("discr", i_) for i_, v_ in enumerate(ta["variants"]) if v_.get("discr", i_) not in c.fact[1]]
+                    if len(left) == 1:
+                        tags.append((deval(t[1])[3], left[0]))
+    for (TAG, d) in tags:
+        ck = (id(ctx.fx), adt, F, TAG, d)
+        if ck not in _TAGGED:
+            _TAGGED[ck] = _struct_invariant(ctx, adt, F, TAG, d)
+        if _TAGGED[ck]:
+            return True
+    return False
+
+
+def _struct_invariant(ctx, adt, F, TAG, d):
+    mod = adt.rsplit("::", 1)[0]
+    built = 0
+    # the fields must not be writable from outside the module
+    if any(fl.get("pub") for v_ in ctx.fx.adts[adt]["variants"] for fl in v_["fields"] if fl.get("name") in (F, TAG)):
+        return False
+    for k, f in ctx.fx.fns.items():
+        if f["kind"] not in ("Fn", "AssocFn", "Closure") or not (k.startswith(mod + "::") or k.startswith("<" + mod + "::")):
+            continue
+        ps = ctx.paths(k) or []
+        takes = any(adt in (l.get("ty") or "") for l in f["locals"][1:1 + int(f.get("arg_count", 0) or 0)])
+        reach = bool(f.get("reachable"))
+        for q in ps:
+            # values of the struct that leave the module: returned by a function callers outside can reach (a private constructor's result is
+            # judged where it is used: inlined into its callers, or seen as an opaque call there, which fails below), or passed to a call
+            outs = [q.end[1]] if (q.end[0] == "return" and reach) else []
+            if outs and adt in (f.get("ret_ty") or ""):
+                v0 = q.end[1]
+                for _ in range(3):
+                    v0 = unwrap_ok(v0) if unwrap_ok(v0) is not None else (unwrap_some(v0) if unwrap_some(v0) is not None else v0)
+                plain = isinstance(v0, tuple) and v0[:3] == ("agg", "adt", adt)
+                other = unwrap_err(q.end[1]) is not None or is_none(q.end[1]) or is_call(q.end[1], "from_residual")
+                if not plain and not other:
+                    return False                         # a struct value of unknown make-up is handed out
+            outs += [a for e in q.events if e.kind == "call" for a in e.args]
+            for o in outs:
+                for s_ in subterms(o):
+                    if s_[0] == "agg" and s_[1] == "adt" and s_[2] == adt and s_[5] and TAG in s_[5] and F in s_[5]:
+                        vals = dict(zip(s_[5], s_[4]))
+                        tv = agg_variant(vals[TAG])
+                        if tv is None:
+                            return False                     # the tag is not a literal here: cannot tell
+                        dv = _variant_index(ctx.fx, tv[0], tv[1])
+                        if dv is None:
+                            return False
+                        built += 1
+                        if dv == d and not (agg_variant(vals[F]) and agg_variant(vals[F])[1] == "Some"):
+                            return False
+            if not takes:
+                continue
+            # a function that is handed the struct must not unset F or change the tag
+            for e in q.events:
+                if e.kind == "store" and isinstance(e.place, tuple) and mentions(e.place, lambda s_: s_[0] == "field" and s_[3] in (F, TAG) and mentions(s_[1], lambda u: u[0] == "param")):
+                    return False
+                if e.kind == "call" and e.args and isinstance(e.args[0], tuple) and e.args[0][0] == "refmut" and isinstance(e.args[0][1], tuple) and e.args[0][1][0] == "field" \
+                        and e.args[0][1][3] in (F, TAG) and mentions(e.args[0][1][1], lambda u: u[0] == "param") \
+                        and not ev_is(e, "Option::as_mut", "Option::as_deref_mut", "Option::iter_mut"):
+                    return False
+    return built > 0
+
+
+def _variant_index(fx, adt, variant):
+    a = fx.adts.get(adt)
+    if not a:
+        return None
+    for i, v in enumerate(a["variants"]):
+        if v["name"] == variant:
+            return v.get("discr", i)
+    return None
+
+
 def discharge(ctx, body, p, ev, kind):
     """name of the guard rule that makes this site safe on path p, or None"""
     bb = ev if "inlined_from" in ev.data else ev.bb
@@ -480,6 +581,8 @@ def discharge(ctx, body, p, ev, kind):
         last = nm.split("::")[-1]
         if last in ("unwrap", "expect") and "Option" in nm:
             x = strip_refs(ev.args[0])
+            if ctx is not None and tagged_option_field(ctx, body, p, bb, x):
+                return "G2-option-field-set-whenever-the-tag-tested-here-is-set"
             for c in conds_before(p, bb):
                 t = c.term
                 if is_call(t, "Option::is_none") and strip_refs(call_args(t)[0]) == x and c.fact == ("eq", False):
